@@ -77,12 +77,20 @@ pub fn peng_robinson(n: usize) -> PengRobinson {
 }
 
 pub fn peng_robinson_params(n: usize) -> PengRobinsonParameters {
+    peng_robinson_params_idx(&(0..n).collect::<Vec<_>>())
+}
+
+/// the Peng-Robinson parameter set of the components `idx` (in that order) of the three-component list, built directly
+/// from the literal records and the k_ij formula — independent of `Parameter::subset` / `Parameter::records`
+pub fn peng_robinson_params_idx(idx: &[usize]) -> PengRobinsonParameters {
     let tc = [369.96, 425.2, 507.6];
     let pc = [4250000.0, 3800000.0, 3025000.0];
     let om = [0.153, 0.199, 0.301];
     let mw = [44.0962, 58.123, 86.177];
-    let recs: Vec<_> = (0..n)
-        .map(|i| {
+    let n = idx.len();
+    let recs: Vec<_> = idx
+        .iter()
+        .map(|&i| {
             PureRecord::new(
                 Identifier::default(),
                 mw[i],
@@ -95,7 +103,7 @@ pub fn peng_robinson_params(n: usize) -> PengRobinsonParameters {
         for i in 0..n {
             for j in 0..n {
                 if i != j {
-                    k[[i, j]] = 0.01 * (1 + i + j) as f64;
+                    k[[i, j]] = 0.01 * (1 + idx[i] + idx[j]) as f64;
                 }
             }
         }
@@ -111,10 +119,17 @@ pub fn pets(n: usize) -> Pets {
 }
 
 pub fn pets_params(n: usize) -> PetsParameters {
+    pets_params_idx(&(0..n).collect::<Vec<_>>())
+}
+
+/// as [`peng_robinson_params_idx`], for PeTS (k_ij distinct per pair of original indices)
+pub fn pets_params_idx(idx: &[usize]) -> PetsParameters {
     let sig = [3.4, 3.63, 3.9];
     let eps = [120.0, 165.0, 230.0];
-    let recs: Vec<_> = (0..n)
-        .map(|i| {
+    let n = idx.len();
+    let recs: Vec<_> = idx
+        .iter()
+        .map(|&i| {
             PureRecord::new(
                 Identifier::default(),
                 39.948 + 40.0 * i as f64,
@@ -127,7 +142,7 @@ pub fn pets_params(n: usize) -> PetsParameters {
         for i in 0..n {
             for j in 0..n {
                 if i != j {
-                    k[[i, j]] = feos::pets::PetsBinaryRecord::from(0.02);
+                    k[[i, j]] = feos::pets::PetsBinaryRecord::from(0.01 * (1 + idx[i] + idx[j]) as f64);
                 }
             }
         }
@@ -173,12 +188,17 @@ pub fn saftvrqmie(names: &[&str], file: &str, binary: Option<&str>) -> SaftVRQMi
 }
 
 pub fn uvtheory(n: usize, pert: Perturbation) -> UVTheory {
+    uvtheory_idx(&(0..n).collect::<Vec<_>>(), pert, 0.5)
+}
+
+pub fn uvtheory_idx(idx: &[usize], pert: Perturbation, max_eta: f64) -> UVTheory {
     let rep = [12.0, 24.0];
     let att = [6.0, 6.0];
     let sig = [3.4, 3.9];
     let eps = [120.0, 190.0];
-    let recs: Vec<_> = (0..n)
-        .map(|i| {
+    let recs: Vec<_> = idx
+        .iter()
+        .map(|&i| {
             PureRecord::new(
                 Identifier::default(),
                 1.0,
@@ -187,7 +207,7 @@ pub fn uvtheory(n: usize, pert: Perturbation) -> UVTheory {
         })
         .collect();
     let p = UVTheoryParameters::from_records(recs, None).unwrap();
-    UVTheory::with_options(Arc::new(p), UVTheoryOptions { max_eta: 0.5, perturbation: pert })
+    UVTheory::with_options(Arc::new(p), UVTheoryOptions { max_eta, perturbation: pert })
 }
 
 pub fn epcsaft(names: &[&str], binary: bool) -> ElectrolytePcSaft {
